@@ -194,7 +194,6 @@ func VerifGetAttribute(obj interface{}, attr string) (interface{}, error) {
 	return ctx.getAttribute(obj, attr)
 }
 
-
 var _ = unsafe.Pointer(nil)
 
 // VerifWrapCallbacks replaces every registered filter, function and test by the wrapper's result,
